@@ -17,7 +17,7 @@ OBLIGATIONS = [
     'C12.signed_to_c2_spec', 'C12.c2_to_signed_spec', 'C12.c2_to_signed_range', 'C12.c2_roundtrip_signed',
     'C12.c2_roundtrip_unsigned', 'C12.signExtend_spec', 'C12.signExtend_preserves_signed',
     # fixed point
-    'C12.fx_add_spec', 'C12.fx_sub_spec', 'C12.fx_mult_spec', 'C12.fx_iw0_counterexample',
+    'C12.fx_add_spec', 'C12.fx_sub_spec', 'C12.fx_mult_spec', 'C12.fx_iw0_works',
     # FPNum
     'C12.adjust_semp_preserves_value', 'C12.adjust_semp_total', 'C12.mk4_value', 'C12.mk4_total',
     'C12.fpnum_add_exact', 'C12.fpnum_sub_exact', 'C12.fpnum_mul_exact', 'C12.fpnum_arith_total',
@@ -54,10 +54,10 @@ PROPOSED_FINDINGS = [
      "class_expr": "r.get('kind')=='fpnum-compare' and r['a'][2]==0 and r['b'][2]==0 and r['a'][0]!=r['b'][0]",
      "witness": {"kind": "fpnum-compare", "a": [1, -127, 0, 1], "b": [-1, -127, 0, 1]},
      "what": "FPNum.compare(+0, -0) returns 1 and compare(-0, +0) returns -1 although both denote the rational 0"},
-    {"id": "C12-fx-iw0", "property": "C12", "status": "known", "anchor": "py4hw/helper.py:484",
+    {"id": "C12-fx-iw0", "property": "C12", "status": "fixed", "fixed_by": "b11b379", "anchor": "py4hw/helper.py:484",
      "class_expr": "r.get('kind')=='fx' and r['iw']==0 and r['observed']=='err'",
-     "witness": {"kind": "fx", "op": "add", "sw": 1, "iw": 0, "fw": 7, "a": 1, "b": 2},
-     "what": "FixedPoint formats with int_bits = 0 (e.g. Q0.7) cannot add/sub/mult: FixedPoint(sw,0,fw,0) evaluates 1 << -1 and raises ValueError"},
+     "witness": {"kind": "fx", "op": "add", "sw": 1, "iw": 0, "fw": 7, "a": 32, "b": 64},
+     "what": "FixedPoint formats with int_bits = 0 (e.g. Q0.7) could not add/sub/mult: FixedPoint(sw,0,fw,0) evaluated 1 << -1 and raised ValueError"},
 ]
 
 DRIVER = 'Drv/C12.lean'
@@ -345,7 +345,7 @@ def run_fx(res, tier, rng, H, st):
         for op in ('add', 'sub', 'mult'):
             o = oracle_fx(res, H, op, sw, iw, fw, a, b)
             st.add('fx-' + op, f'fx{op} | {sw},{iw},{fw},{a},{b}', i2s(o), (sw, iw, fw, a, b))
-        res.count(('fx', sw, iw, fw, a, b), hist={'fx_format_sw_w': f'{sw}/{min(sw + iw + fw, 9)}'})
+        res.count(('fx', sw, iw, fw, a, b), hist={'fx_format_sw_w': f'{sw}/{min(sw + iw + fw, 9)}', 'fx_int_bits': min(iw, 9)})
     # conversions (correspondence only: not part of the property's claim)
     FX = H.FixedPoint
     for i in range(600 if tier == 'quick' else 15000):
@@ -745,6 +745,16 @@ def run_corpus(res, H, st, replay):
     for rc in cases:
         replay_case(res, H, st, rc)
         res.count(('corpus', json.dumps(rc, sort_keys=True)))
+    # permanent regression cases of C12-fx-iw0 (fixed by b11b379): Q0.7 with sign, through the float constructor and back
+    FX = H.FixedPoint
+    for op, exp in (('add', 0.75), ('sub', -0.25), ('mult', 0.125)):
+        def q07():
+            return getattr(FX(1, 0, 7, 0.25), op)(FX(1, 0, 7, 0.5)).toFloatingPoint()
+        got = real(q07)
+        if got != exp:
+            fail(res, f'FixedPoint(1,0,7,0.25).{op}(FixedPoint(1,0,7,0.5)) = {got}, expected {exp}',
+                 dict(kind='fx', op=op, sw=1, iw=0, fw=7, a=32, b=64, observed=got if isinstance(got, str) else repr(got), expected=exp))
+        res.count(('q07', op))
     # the other half-precision subnormal boundary witnesses
     for b in (0x0001, 0x03FF, 0x8001, 0x83FF, 0x0200):
         oracle_fpnum_enc(res, H, st, 'hp', b)
